@@ -8,14 +8,7 @@ import vlib
 # Deviations of spec/ValueText.tla that reproduce genuine defects found on the unchanged tree and
 # proposed in /verif/proposals/C18 but not (yet) listed in known_findings.json.  Once they are listed
 # there (or fixed in /repo) this list can be emptied: an entry in known_findings.json wins.
-PROPOSED_KNOWN = [
-    {"property": "C18", "deviation": "JsonKeyNotEscaped", "spec": "ValueText!KeyTok",
-     "what": "WriteJSONValue writes map keys between quotes without escaping: a key holding a quote, a backslash or a "
-             "control character makes the JSON form unreadable (or changes the key) for ggql's own reader and for encoding/json"},
-    {"property": "C18", "deviation": "SdlKeyNotQuoted", "spec": "ValueText!KeyTok",
-     "what": "WriteSDLValue always writes map keys bare: a key that is not made of letters, digits and underscores "
-             "(a space, a non-ASCII letter, punctuation) gives SDL text that ParseValueString rejects or reads as another map"},
-]
+PROPOSED_KNOWN = []   # both map key defects are repaired in /repo
 
 ALL_DEVIATIONS = ["JsonKeyNotEscaped", "SdlKeyNotQuoted"]
 
@@ -194,6 +187,22 @@ def self_checks(ctx, vecs, uni, devs):
         ctx.extra.setdefault("deviation_reproduced_in_model", {})[d] = inv + " violated"
 
 
+REQUIRED_CLASSES = (["has-empty-list", "has-empty-map", "has-adjacent-containers", "depth-0", "depth-1", "depth-2", "depth-3"]
+                    + ["leaf-" + k for k in ("null", "bool", "int", "float", "str", "sym", "var")]
+                    + ["mode-%s-ind%s-sort=%s" % (f, i, s) for f in ("sdl", "json") for i in ("-1", "+0", "+2") for s in ("true", "false")])
+
+
+def vacuity(ctx):
+    """Every shape the quantifier of the property names must have been replayed (else the run proves less than it says)."""
+    cl = ctx.extra.get("classes", {}).get("replay", {})
+    empty = [c for c in REQUIRED_CLASSES if not cl.get(c)]
+    if empty:
+        raise vlib.MachineryError("vacuous run: no replayed case in the classes %s" % empty)
+    rec = ctx.extra.get("classes", {}).get("record", {})
+    if not rec.get("depth-4") or not rec.get("has-adjacent-containers"):
+        raise vlib.MachineryError("vacuous run: the recorded values are not deeper than the enumerated ones")
+
+
 def run(ctx):
     devs = known_devs(ctx)
     thorough = ctx.tier == "thorough"
@@ -206,6 +215,7 @@ def run(ctx):
     absorb(ctx, rep, "record", devs)
     verdicts, recs = judge(ctx, out, devs)
     judge_verdicts(ctx, verdicts, recs, devs, "record")
+    vacuity(ctx)
     if thorough:
         self_checks(ctx, vecs, uni, devs)
     if ctx.extra.get("text_drift"):
@@ -227,4 +237,6 @@ def run(ctx):
         "symbols and variables are GraphQL names; map keys never contain bytes that are not valid UTF-8 or NUL",
         "bytes that are not valid UTF-8 inside strings are expected back as U+FFFD in both forms (the statement says so for the JSON form)",
         "the text comparison with the writer model is exact (every byte); a text that differs but reads back correctly is reported as a note, not as a violation",
+        "a failing case counts as a known finding only if the deviation changes what the model writes for that value and the real read-back value and "
+        "decoded JSON are exactly what the reader model / JSON grammar make of the deviating model's text; every other failing case is a violation",
     ]
